@@ -131,3 +131,15 @@ CASES += [
         ("quantarhei/builders/modes.py", "            return self.convert_energy_2_current_u(self.submodes[N].omega)",
          "            if getattr(self, \"_en_conv\", None) is None:\n                self._en_conv = self.convert_energy_2_current_u(self.submodes[N].omega)\n            return self._en_conv", 1)]},
 ]
+
+CASES += [
+    {"name": "diagonalize stores eigenvalues of the converted matrix (the repaired defect)", "kind": "mutant", "rule": "C05-U13", "edits": [
+        ("quantarhei/qm/hilbertspace/operators.py", "        self.data\n        dd,SS = numpy.linalg.eigh(self._data)", "        dd,SS = numpy.linalg.eigh(self.data)", 1)]},
+    {"name": "diagonalize with cut-off writes through the property (the repaired defect)", "kind": "mutant", "rule": "C05-U13", "edits": [
+        ("quantarhei/qm/hilbertspace/hamiltonian.py", "                self._data[ii,ii] = dd[ii]", "                self.data[ii,ii] = dd[ii]", 1)]},
+    {"name": "diagonalize with cut-off takes eigenvalues of the converted matrix", "kind": "mutant", "rule": "C05-U13", "edits": [
+        ("quantarhei/qm/hilbertspace/hamiltonian.py", "            dd,SS = numpy.linalg.eigh(self._data)\n            self._data = numpy.zeros(self._data.shape,dtype=REAL)", "            dd,SS = numpy.linalg.eigh(self.data)\n            self._data = numpy.zeros(self._data.shape,dtype=REAL)", 1)]},
+    {"name": "diagonalize under internal units reads through the property", "kind": "twin", "edits": [
+        ("quantarhei/qm/hilbertspace/operators.py", "        self.data\n        dd,SS = numpy.linalg.eigh(self._data)", "        with energy_units(\"int\"):\n            dd,SS = numpy.linalg.eigh(self.data)", 1),
+        ("quantarhei/qm/hilbertspace/operators.py", "import numpy\n", "import numpy\nfrom ...core.managers import energy_units\n", 1)]},
+]
